@@ -53,6 +53,7 @@ class Obligation:
         self.note = note
         self.props = tuple(props)
         self.expect_sat = expect_sat   # cover obligations: must be satisfiable
+        self.reveals = ()              # opaque spec functions this obligation may unfold
 
 
 class Engine:
@@ -318,6 +319,7 @@ class Engine:
             # known finding: the clause as written must still fail (twin), and outside the carve-out it
             # must be proved, so any *other* violation of the same clause is still reported
             twin = Obligation(name + "@known", kind, list(hyps), goal, note, props)
+            twin.reveals = tuple(getattr(self, "cur_reveals", ()))
             twin.trace = list(st.trace)
             self.obligations.append(twin)
             s0 = st.copy()
@@ -325,6 +327,7 @@ class Engine:
             s0.heap = self._entry_heap.copy()
             hyps.append(z3.Not(self.spec_bool(kf["carve_out"], s0, self.cur_frame)))
         ob = Obligation(name, kind, hyps, goal, note, props)
+        ob.reveals = tuple(getattr(self, "cur_reveals", ()))
         ob.trace = list(st.trace)
         ob.entry = (getattr(self, "_entry_env", None), getattr(self, "_entry_heap", None))
         self.obligations.append(ob)
@@ -1096,7 +1099,26 @@ class Engine:
         m = getattr(self, "ex_" + s0.__class__.__name__, None)
         if m is None:
             raise EngineError(f"statement {s0.__class__.__name__} not modelled")
+        gc = getattr(getattr(fr, "contract", None), "ghost_code", None)
+        if gc:
+            src = ast.unparse(s0).split("\n")[0]
+            ups = [u for anchor, updates in gc if src.startswith(anchor) for u in updates]
+            if ups:
+                return m(s0, st, fr, lambda s: self.ex(stmts[1:], self.run_ghost(s, fr, ups), fr, k))
         return m(s0, st, fr, lambda s: self.ex(stmts[1:], s, fr, k))
+
+    def run_ghost(self, st, fr, updates):
+        """ghost code of the contract, run after an anchored statement: (array name, index text, value text) stores
+        into a ghost int array / (name, None, value text) sets a ghost int.  Ghost state is never read by the code."""
+        for name, idx, val in updates:
+            v = self.spec_value(val, st, fr).t
+            if idx is None:
+                st.heap.set(("g", name, "int"), v)
+            else:
+                i = self.spec_value(idx, st, fr).t
+                key = ("g", name, "arr")
+                st.heap.set(key, z3.Store(st.heap.get(key), i, v))
+        return st
 
     def ex_Pass(self, n, st, fr, k):
         return k(st)
